@@ -51,6 +51,49 @@ def apply(obj, ev: dict):
     raise ValueError(op)
 
 
+# presentation of the VALUES: index maps move entries and change none, so the labels may equally be huge integers
+# (label + 2^53, stored as int64: not representable as doubles).  The harness adds the offset to every non-zero entry on
+# the way in and removes it on the way out; an entry that went through a double comes back as another label.
+BIG = 2 ** 53
+
+
+def is_big(b: dict) -> bool:
+    import hashlib
+    if b.get("big") is not None:
+        return bool(b["big"])
+    if b["init"].get("kind") not in ("dense", "sparse"):
+        return False
+    return hashlib.md5(json.dumps(b["init"], sort_keys=True).encode()).digest()[4] % 4 == 0
+
+
+def to_big(obj):
+    import bind
+    ttb = bind.ttb
+    if isinstance(obj, ttb.sptensor):
+        if obj.nnz == 0:
+            return obj
+        v = np.round(obj.vals).astype(np.int64)
+        return ttb.sptensor(obj.subs.copy(), np.where(v != 0, v + BIG, 0), obj.shape)
+    if isinstance(obj, ttb.tensor):
+        v = np.round(obj.data).astype(np.int64)
+        return ttb.tensor(np.where(v != 0, v + BIG, 0))
+    return obj
+
+
+def from_big(res):
+    import bind
+    ttb = bind.ttb
+    if isinstance(res, ttb.sptensor):
+        if res.nnz == 0:
+            return res
+        return ttb.sptensor(res.subs.copy(), np.where(res.vals != 0, res.vals - BIG, 0), res.shape)
+    if isinstance(res, ttb.tensor):
+        return ttb.tensor(np.where(res.data != 0, res.data - BIG, 0))
+    if isinstance(res, (int, float, np.number)):
+        return res - BIG if res != 0 else res
+    return res
+
+
 def admissible(ret: dict, exp: dict) -> str:
     """Python-side lock-step comparison (same clauses as IndexMaps!…Why)."""
     import bind
@@ -91,11 +134,14 @@ def record(stim: dict) -> dict:
     """Re-execute a stored stimulus (init + events) on the real code; no expectations needed."""
     import bind
     obj = bind.gamma(stim["init"])
-    tr = {"init": stim["init"], "ev": []}
+    big = is_big(stim)
+    if big:
+        obj = to_big(obj)
+    tr = {"init": stim["init"], "big": big, "ev": []}
     for ev in stim["ev"]:
         try:
             obj = apply(obj, ev)
-            ret = bind.alpha(obj)
+            ret = bind.alpha(from_big(obj) if big else obj)
         except bind.Inexact as e:
             ret = {"kind": "inexact", "msg": str(e)[:200]}
         except Exception as e:
@@ -112,7 +158,10 @@ def replay(b: dict) -> dict:
     traces = []
     divs = []
     obj = bind.gamma(b["init"])
-    cur = {"init": b["init"], "ev": []}
+    big = is_big(b)
+    if big:
+        obj = to_big(obj)
+    cur = {"init": b["init"], "big": big, "ev": []}
     pre_spec = b["init"]
     nev = 0
     nontrivial = []
@@ -122,7 +171,7 @@ def replay(b: dict) -> dict:
             nontrivial.append(json.dumps([pre_spec, ev["op"], ev["args"]], sort_keys=True))
         try:
             res = apply(obj, ev)
-            ret = bind.alpha(res)
+            ret = bind.alpha(from_big(res) if big else res)
         except bind.Inexact as e:
             ret = {"kind": "inexact", "msg": str(e)[:200]}
             res = None
@@ -138,10 +187,12 @@ def replay(b: dict) -> dict:
                          "event": len(cur["ev"])})
             traces.append(cur)
             # continue the behaviour from the specification's expected state
-            cur = {"init": ev["ret"], "ev": []}
+            cur = {"init": ev["ret"], "big": big, "ev": []}
             if ev["ret"]["kind"] == "scalar":
                 break
             obj = bind.gamma(ev["ret"])
+            if big:
+                obj = to_big(obj)
         else:
             obj = res
         pre_spec = ev["ret"]
@@ -192,6 +243,13 @@ def main(tier: str) -> int:
                     b["layout"] = "strided"
             out.notes["wide_behaviours"] = out.notes.get("wide_behaviours", 0) + len(bs)
         behaviours += bs
+    # tiny operands (one or two cells: the results include bare scalars) are run under both value presentations
+    extra = []
+    for b in behaviours:
+        if b["init"].get("kind") in ("dense", "sparse") and int(np.prod(b["init"]["shape"])) <= 2 and "big" not in b:
+            b["big"] = False
+            extra.append(dict(b, big=True))
+    behaviours += extra
     out.notes["tlc_runs"] = len(jobs)
     out.notes["shapes"] = [list(s) for s in shp]
     out.notes["behaviours"] = len(behaviours)
